@@ -3,8 +3,8 @@
 CONFIG = {
     "id": "X40",
     "coq_dirs": ["theories/Nfs40"],
-    "coq_targets": ["theories/Nfs40/Properties.vo", "theories/Nfs40/Corr.vo"],
-    "properties_files": ["theories/Nfs40/Properties.v"],
+    "coq_targets": ["theories/Nfs40/PropertiesC18.vo", "theories/Nfs40/PropertiesC19.vo", "theories/Nfs40/PropertiesC20.vo", "theories/Nfs40/Corr.vo"],
+    "properties_files": ["theories/Nfs40/PropertiesC18.v", "theories/Nfs40/PropertiesC19.v", "theories/Nfs40/PropertiesC20.v"],
     "required_theorems": [],
     "harnesses": [
         {"cmd": "nfs40", "cases_quick": 240, "cases_thorough": 8000, "shards_quick": 12, "shards_thorough": 32},
